@@ -47,6 +47,7 @@ class Report:
         self.explanation = ""
         self.extra: Dict[str, Any] = {}
         self._seen_v: set = set()
+        self.touched: set = set()
 
     # -- rule registry ---------------------------------------------------
     def rule(self, rid: str, text: str, floor: int = 1) -> None:
@@ -58,6 +59,8 @@ class Report:
         if rule not in self.rules:
             raise AnalysisError(f"unregistered rule {rule}")
         w = where.ref if isinstance(where, Fn) else str(where)
+        if "::" in w:
+            self.touched.add(w.split("::")[0])
         self.obligations += 1
         self.rules[rule]["instances"] += 1
         if nontrivial:
@@ -89,6 +92,60 @@ class Report:
                 raise AnalysisError(
                     f"{self.prop}: rule {rid} matched {r['instances']} instances, floor {r['floor']} "
                     f"(the rule would pass vacuously)")
+
+
+def run_check(mod, repo: Repo, rep: "Report") -> None:
+    """Well-formedness of the property's anchor files first (E12: undefined names, cell indices), then the property's own rules,
+    then the instance floors.  An anchor that vanishes *after* violations were already recorded is part of the breakage being
+    reported, not a blind spot: the violations are reported (exit 1) with a note; without any violation it is an analysis error."""
+    wellformed(repo, rep)
+    try:
+        mod.check(repo, rep)
+    except AnalysisError as e:
+        if not rep.violations:
+            raise
+        rep.notes.append(f"analysis stopped early ({e}); the violations recorded before that point are reported")
+        return
+    wellformed(repo, rep, only_touched=True)
+    rep.check_floors()
+
+
+_ANCHORS: Dict[str, List[str]] = {}
+
+
+def anchor_files(prop: str) -> List[str]:
+    if not _ANCHORS:
+        with open(os.path.join(VERIF, "properties.jsonl")) as fh:
+            for line in fh:
+                if line.strip():
+                    d = json.loads(line)
+                    _ANCHORS[d["id"]] = list(d.get("anchors", {}).get("files", []))
+    return _ANCHORS.get(prop, [])
+
+
+def wellformed(repo: Repo, rep: "Report", only_touched: bool = False) -> None:
+    from .engines import wellformed as W
+    rid = "W0-wellformed"
+    if rid not in rep.rules:
+        rep.rule(rid, "E12: no load of a name bound nowhere (NameError), no one-element closure cell indexed past 0 (IndexError) in the "
+                      "property's anchor files and in every module its rules read", floor=1)
+        rep.ob(rid, "sa/engines/wellformed.py", "embedded positive example is reported (witness for a zero-expected rule)", W.selfcheck(),
+               "the well-formedness engine no longer reports its embedded positive example")
+        rep._wf_done = set()
+    rels = sorted(rep.touched) if only_touched else [r for r in anchor_files(rep.prop) if r.endswith(".py")]
+    for rel in rels:
+        if rel in rep._wf_done:
+            continue
+        rep._wf_done.add(rel)
+        m = repo.modules.get(rel) if hasattr(repo, "modules") else None
+        if m is None:
+            continue
+        und = W.undefined_names(m.src, rel)
+        bad = W.bad_cell_indices(m.src)
+        rep.ob(rid, f"{rel}::<module>", f"{rel}: names resolve, cell indices in range", not und and not bad,
+               "; ".join([f"line {ln}: `{nm}` is loaded in {sc}() but bound in no enclosing scope, not at module level and not a builtin "
+                          f"(NameError when reached: the assignment that defined it is gone)" for ln, nm, sc in und] +
+                         [f"line {ln}: one-element cell `{c}` indexed with {i} (IndexError when reached)" for ln, c, i in bad]))
 
 
 def load_known() -> List[Dict[str, Any]]:
